@@ -517,6 +517,35 @@ def r18_7(ctx):
     return r
 
 
+def _switch_reads_local(b, sb, l, hops=3):
+    """does the discriminant of switch block sb derive from local l (through is_some(&l) / discriminant(l) temporaries)?"""
+    d = b.blocks[sb]["t"]["d"]
+    if d.get("k") not in ("cp", "mv"):
+        return False
+    cur = {d["p"]["l"]}
+    for _ in range(hops):
+        if l in cur:
+            return True
+        nxt = set()
+        for c in cur:
+            for df in b.defs().get(c, []):
+                if df[0] == "s":
+                    rv = b.blocks[df[1]]["s"][df[2]]["rv"]
+                    for key in ("o", "a", "b"):
+                        o = rv.get(key)
+                        if isinstance(o, dict) and o.get("k") in ("cp", "mv"):
+                            nxt.add(o["p"]["l"])
+                    if rv.get("r") in ("ref", "discr", "rawptr") and "p" in rv:
+                        nxt.add(rv["p"]["l"])
+                else:
+                    t = b.blocks[df[1]]["t"]
+                    for a in t.get("a", []):
+                        if a.get("k") in ("cp", "mv"):
+                            nxt.add(a["p"]["l"])
+        cur = nxt
+    return l in cur
+
+
 def r18_8(ctx):
     """'committed after at most N probation packets': once the number of observed packets has reached the configured
     window (`total >= prob.max_packets`) a winner is always named - rule 3, the packet majority, has no precondition of
@@ -548,7 +577,24 @@ def r18_8(ctx):
     for _ in range(2):
         for bi, si, st in b.assigns():
             if "p" not in st["p"] and st["p"]["l"] in carriers and st["rv"]["r"] == "use" and "p" in st["rv"]["o"] and "p" not in st["rv"]["o"]["p"]:
-                carriers.add(st["rv"]["o"]["p"]["l"])
+                src = st["rv"]["o"]["p"]["l"]
+                # `if x.is_some() { winner = x }`: only a Some ever flows - x's own None / empty search names nobody
+                nm = b.local_name(src)
+
+                def only_some(term, meaning, *_, nm=nm):
+                    if term[0] == "call" and term[1].endswith("::is_some") and meaning is True:
+                        return mir.has(term, lambda y: y[0] == "var" and y[1] == nm) or True
+                    if term[0] == "discr" and meaning == "Some":
+                        return mir.has(term, lambda y: y[0] == "var" and y[1] == nm)
+                    return False
+                gs = [e for e in core.guard_edges(b, only_some)
+                      if mir.has(b.switch_info(e[0])[0], lambda y, src=src: any(z == ("var", b.local_name(src), src) for z in mir.walk(y))) or
+                      b.blocks[e[0]]["t"]["d"].get("k") in ("cp", "mv")]
+                # the switch must be about THIS local: its discriminant reads a value computed from src
+                gs = [e for e in gs if _switch_reads_local(b, e[0], src)]
+                if gs and core.k1(b, [bi], gs)[bi] is None:
+                    continue
+                carriers.add(src)
     for bi, si, st in b.assigns():
         if "p" in st["p"] or st["p"]["l"] not in carriers:
             continue
